@@ -72,6 +72,9 @@ class ParamsGenerator:
 
     if model_qsvs is None:
       model_qsvs = {}
+    # Materialization updates the statistics in place (e.g., for ops with a
+    # same-as-input scale constraint); never touch the caller's object.
+    model_qsvs = copy.deepcopy(model_qsvs)
 
     op_codes = self.flatbuffer_model.operatorCodes
     for subgraph in self.flatbuffer_model.subgraphs:
